@@ -89,10 +89,16 @@ def centralEndpoint (F : DetOps α) (four : α) (a b c d : P α) : P α :=
 coordinates, fall back to the central endpoint when that fails or leaves the envelopes. -/
 def properIntersection (F : DetOps α) (bad : α → Bool) (two four : α) (l1s l1e l2s l2e : P α) :
     P α :=
-  let intMinX := fmax F (fmin F l1s.1 l1e.1) (fmin F l2s.1 l2e.1)
-  let intMaxX := fmin F (fmax F l1s.1 l1e.1) (fmax F l2s.1 l2e.1)
-  let intMinY := fmax F (fmin F l1s.2 l1e.2) (fmin F l2s.2 l2e.2)
-  let intMaxY := fmin F (fmax F l1s.2 l1e.2) (fmax F l2s.2 l2e.2)
+  -- the inlined comparisons of normalizeToEnvCentre, in its own operand order (which of two equal
+  -- values is kept matters for the sign of a zero)
+  let mn (s e : α) : α := if F.lt s e then s else e
+  let mx (s e : α) : α := if F.lt e s then s else e
+  let hi (a b : α) : α := if F.lt b a then a else b      -- `if l1 > l2 then l1 else l2`
+  let lo (a b : α) : α := if F.lt a b then a else b      -- `if l1 < l2 then l1 else l2`
+  let intMinX := hi (mn l1s.1 l1e.1) (mn l2s.1 l2e.1)
+  let intMaxX := lo (mx l1s.1 l1e.1) (mx l2s.1 l2e.1)
+  let intMinY := hi (mn l1s.2 l1e.2) (mn l2s.2 l2e.2)
+  let intMaxY := lo (mx l1s.2 l1e.2) (mx l2s.2 l2e.2)
   let nx := F.div (F.add intMinX intMaxX) two
   let ny := F.div (F.add intMinY intMaxY) two
   let sh (p : P α) : P α := (F.sub p.1 nx, F.sub p.2 ny)
